@@ -190,10 +190,37 @@ pub fn gen_world(seed: u64, idx: u64, s: &dyn SuiteOps, mode: usize) -> World {
                     x
                 }),
             ];
+            // beyond the limit: the same over-long context on both sides, and twins that
+            // would coincide if the length prefix saturated, wrapped or were dropped
+            let x = g.bytes(65536);
+            let u255 = g.bytes(255);
+            let mut x01 = x.clone();
+            x01.push(1);
+            let mut ffu = vec![0xffu8];
+            ffu.extend_from_slice(&u255);
+            let over: Vec<(Vec<u8>, Vec<u8>, Vec<u8>, Vec<u8>)> = vec![
+                (x.clone(), u255.clone(), x.clone(), u255.clone()),
+                (x01.clone(), u255.clone(), x.clone(), ffu.clone()),
+                (x[..65535].to_vec(), u255.clone(), x.clone(), u255.clone()),
+            ];
             let rv = g.below(variants.len());
             let reg_ids = WIds { client: bytes(&variants[rv].0), server: bytes(&variants[rv].1) };
             let (r, ops) = b.reg_ops(&mut g, setup, &pw, &pw, &cred, reg_ids, ksf.clone(), false);
             push_all(&mut b, ops);
+            if idx % 2 == 0 {
+                let (r0, ops) = b.reg_ops(&mut g, setup, &pw, &pw, &cred, WIds { client: bytes(&u255), server: bytes(&bsrv) }, ksf.clone(), false);
+                push_all(&mut b, ops);
+                let (r1, ops) = b.reg_ops(&mut g, setup, &pw, &pw, &cred, WIds { client: bytes(&ffu), server: bytes(&bsrv) }, ksf.clone(), false);
+                push_all(&mut b, ops);
+                for (sctx, su, cctx, cu) in &over {
+                    for rec in [r0.record, r1.record] {
+                        let sids = WIds { client: bytes(su), server: bytes(&bsrv) };
+                        let cids = WIds { client: bytes(cu), server: bytes(&bsrv) };
+                        let (_, ops) = b.login_ops(&mut g, setup, Some(rec), &pw, &pw, &cred, Some(sctx.clone()), Some(cctx.clone()), sids, cids, ksf.clone(), false);
+                        push_all(&mut b, ops);
+                    }
+                }
+            }
             for sv in 0..variants.len() {
                 for cv in [rv, sv, g.below(variants.len())] {
                     let sids = WIds { client: bytes(&variants[sv].0), server: bytes(&variants[sv].1) };
